@@ -12,7 +12,7 @@ PROP = dict(
         "Comdex.C16.site_TransferFundsForSwapFeeDistribution_perm_invariant",
         "Comdex.C16.swapFeeTotal_closed_form",
         "Comdex.C16.appendInOrder_order_dependent", "Comdex.C16.firstMatch_order_dependent",
-        "Comdex.C16.table_mapRangeSites_proven", "Comdex.C16.table_mapRangeSites_size", "Comdex.C16.table_provenSites_live",
+        "Comdex.C16.table_mapRangeSites_proven", "Comdex.C16.table_mapRangeSites_size", "Comdex.C16.table_mapRangeSites_text", "Comdex.C16.table_provenSites_live",
         "Comdex.C16.table_goStatements", "Comdex.C16.table_selectStmts", "Comdex.C16.table_chanOps",
         "Comdex.C16.table_wallClockUses", "Comdex.C16.table_randUses", "Comdex.C16.table_randUses_not_in_keepers",
         "Comdex.C16.table_taintedCallers", "Comdex.C16.table_envUses", "Comdex.C16.table_unsafeUses",
